@@ -116,31 +116,6 @@ theorem nodup_txRemove (m : AList (List Entry)) (path : String) (es : List Entry
 
 /-! ### payee templates -/
 
-theorem get_ptAdd (m l : AList String) (hn : l.keys.Nodup) (p : String) :
-    (ptAdd m l).get p = match l.get p with
-      | some t => some t
-      | none => m.get p := by
-  induction l generalizing m with
-  | nil => simp [ptAdd]
-  | cons e r ih =>
-    obtain ⟨a, b⟩ := e
-    simp only [AList.keys, List.map_cons, List.nodup_cons] at hn
-    simp only [ptAdd, List.foldl_cons] at *
-    rw [ih _ hn.2, get_cons]
-    by_cases h : a = p
-    · subst h
-      have : AList.get r a = none := (get_eq_none_iff r a).mpr hn.1
-      simp [this, get_set_self]
-    · simp only [h, if_false]
-      cases AList.get r p with
-      | some t => rfl
-      | none => simp [get_set_ne _ _ _ _ h]
-
-theorem nodup_ptAdd (m l : AList String) (h : m.keys.Nodup) : (ptAdd m l).keys.Nodup := by
-  induction l generalizing m with
-  | nil => exact h
-  | cons e r ih => simp only [ptAdd, List.foldl_cons] at *; exact ih _ (nodup_keys_set _ _ _ h)
-
 theorem foldl_min_mem (a : String) (r : List String) :
     List.foldl (fun b x => if x < b then x else b) a r ∈ a :: r := by
   induction r generalizing a with
@@ -157,8 +132,32 @@ theorem foldl_min_mem (a : String) (r : List String) :
       · rw [h1]; simp
       · exact List.mem_cons_of_mem _ (List.mem_cons_of_mem _ h1)
 
+theorem foldl_min_le (a : String) (r : List String) :
+    ∀ x ∈ a :: r, List.foldl (fun b x => if x < b then x else b) a r ≤ x := by
+  induction r generalizing a with
+  | nil => intro x hx; simp at hx; subst hx; exact String.le_refl _
+  | cons b r ih =>
+    intro x hx
+    simp only [List.foldl_cons]
+    by_cases h : b < a
+    · simp only [h, if_true]
+      have hba : b ≤ a := String.not_lt.mp (String.lt_asymm h)
+      rcases List.mem_cons.mp hx with hx | hx
+      · exact hx ▸ String.le_trans (ih b b List.mem_cons_self) hba
+      · exact ih b x hx
+    · simp only [h, if_false]
+      have hab : a ≤ b := String.not_lt.mp h
+      rcases List.mem_cons.mp hx with hx | hx
+      · exact hx ▸ ih a a List.mem_cons_self
+      · rcases List.mem_cons.mp hx with hx | hx
+        · exact hx ▸ String.le_trans (ih a a List.mem_cons_self) hab
+        · exact ih a x (List.mem_cons_of_mem _ hx)
+
 theorem minPath_mem (a : String) (r : List String) : minPath (a :: r) ∈ a :: r :=
   foldl_min_mem a r
+
+theorem minPath_le (a : String) (r : List String) : ∀ x ∈ a :: r, minPath (a :: r) ≤ x :=
+  foldl_min_le a r
 
 /-- what `restorePayeeTemplate` stores for a payee -/
 def ptRestoreVal (files : AList FileIdx) (payee : String) : Option String :=
@@ -166,42 +165,73 @@ def ptRestoreVal (files : AList FileIdx) (payee : String) : Option String :=
   | [] => none
   | h :: t => (files.getD (minPath (h :: t)) default).c.pts.get payee
 
-theorem get_ptRestore (files : AList FileIdx) (m : AList String) (payee p : String) :
-    (ptRestore files (m.erase payee) payee).get p =
-      if payee = p then ptRestoreVal files payee else m.get p := by
-  unfold ptRestore ptRestoreVal
-  cases hh : (files.filter fun e => (e.2.c.pts.get payee).isSome).map (·.1) with
+/-- `t` is the payee's template in the indexed file with the smallest path that has one -/
+def IsMinTemplate (files : AList FileIdx) (p t : String) : Prop :=
+  ∃ f fi, (files.get f = some fi ∧ fi.c.pts.get p = some t) ∧
+    ∀ f' fi', (files.get f' = some fi' ∧ (fi'.c.pts.get p).isSome) → f ≤ f'
+
+theorem ptRestoreVal_iff (files : AList FileIdx) (hn : files.keys.Nodup) (p t : String) :
+    ptRestoreVal files p = some t ↔ IsMinTemplate files p t := by
+  unfold ptRestoreVal
+  have hhave : ∀ f, f ∈ (files.filter fun e => (e.2.c.pts.get p).isSome).map (·.1) ↔
+      ∃ fi, files.get f = some fi ∧ (fi.c.pts.get p).isSome := by
+    intro f
+    simp only [List.mem_map, List.mem_filter]
+    constructor
+    · rintro ⟨e, ⟨he, hp⟩, rfl⟩
+      exact ⟨e.2, mem_get_of_nodup files e.1 e.2 hn he, hp⟩
+    · rintro ⟨fi, hg, hp⟩
+      exact ⟨(f, fi), ⟨get_mem files f fi hg, hp⟩, rfl⟩
+  cases hh : (files.filter fun e => (e.2.c.pts.get p).isSome).map (·.1) with
   | nil =>
     simp only
-    rw [get_erase]
-  | cons h t =>
+    constructor
+    · intro h; simp at h
+    · rintro ⟨f, fi, ⟨hg, hp⟩, _⟩
+      have := (hhave f).mpr ⟨fi, hg, by rw [hp]; rfl⟩
+      rw [hh] at this; simp at this
+  | cons a r =>
     simp only
-    cases hv : (files.getD (minPath (h :: t)) default).c.pts.get payee with
-    | none =>
-      simp only
-      rw [get_erase]
-    | some v =>
-      simp only
-      rw [get_set, get_erase]
-      by_cases e : payee = p <;> simp [e]
+    have hm : minPath (a :: r) ∈ (files.filter fun e => (e.2.c.pts.get p).isSome).map (·.1) := by
+      rw [hh]; exact minPath_mem a r
+    obtain ⟨fi0, hg0, hp0⟩ := (hhave _).mp hm
+    have hgd : files.getD (minPath (a :: r)) default = fi0 := by simp [AList.getD, hg0]
+    rw [hgd]
+    have hmin : ∀ f' fi', (files.get f' = some fi' ∧ (fi'.c.pts.get p).isSome) → minPath (a :: r) ≤ f' := by
+      intro f' fi' h'
+      have := (hhave f').mpr ⟨fi', h'.1, h'.2⟩
+      rw [hh] at this
+      exact minPath_le a r f' this
+    constructor
+    · intro h
+      exact ⟨minPath (a :: r), fi0, ⟨hg0, h⟩, hmin⟩
+    · rintro ⟨f, fi, ⟨hg, hp⟩, hle⟩
+      have h1 : f ≤ minPath (a :: r) := hle _ fi0 ⟨hg0, hp0⟩
+      have h2 : minPath (a :: r) ≤ f := hmin f fi ⟨hg, by rw [hp]; rfl⟩
+      have : f = minPath (a :: r) := String.le_antisymm h1 h2
+      subst this
+      rw [hg0] at hg
+      simp only [Option.some.injEq] at hg
+      rw [hg]; exact hp
+
+/-- `IsMinTemplate` only looks at the files that have a template for the payee -/
+theorem isMinTemplate_congr (files files' : AList FileIdx) (p : String)
+    (h : ∀ f fi, (files.get f = some fi ∧ (fi.c.pts.get p).isSome) ↔
+      (files'.get f = some fi ∧ (fi.c.pts.get p).isSome)) (t : String) :
+    IsMinTemplate files p t ↔ IsMinTemplate files' p t := by
+  constructor
+  · rintro ⟨f, fi, ⟨hg, hp⟩, hle⟩
+    have := (h f fi).mp ⟨hg, by rw [hp]; rfl⟩
+    exact ⟨f, fi, ⟨this.1, hp⟩, fun f' fi' h' => hle f' fi' ((h f' fi').mpr h')⟩
+  · rintro ⟨f, fi, ⟨hg, hp⟩, hle⟩
+    have := (h f fi).mpr ⟨hg, by rw [hp]; rfl⟩
+    exact ⟨f, fi, ⟨this.1, hp⟩, fun f' fi' h' => hle f' fi' ((h f' fi').mp h')⟩
 
 theorem ptRestoreVal_sound (files : AList FileIdx) (hn : files.keys.Nodup) (payee t : String)
     (h : ptRestoreVal files payee = some t) :
     ∃ p fi, files.get p = some fi ∧ fi.c.pts.get payee = some t := by
-  unfold ptRestoreVal at h
-  cases hh : (files.filter fun e => (e.2.c.pts.get payee).isSome).map (·.1) with
-  | nil => simp [hh] at h
-  | cons a r =>
-    simp only [hh] at h
-    have hm : minPath (a :: r) ∈ (files.filter fun e => (e.2.c.pts.get payee).isSome).map (·.1) := by
-      rw [hh]; exact minPath_mem a r
-    obtain ⟨e, he, heq⟩ := List.mem_map.mp hm
-    have he' := (List.mem_filter.mp he).1
-    have hg : files.get e.1 = some e.2 := mem_get_of_nodup files e.1 e.2 hn he'
-    refine ⟨minPath (a :: r), e.2, by rw [← heq]; exact hg, ?_⟩
-    have : files.getD (minPath (a :: r)) default = e.2 := by
-      unfold AList.getD; rw [← heq, hg]; rfl
-    rw [this] at h; exact h
+  obtain ⟨f, fi, hg, _⟩ := (ptRestoreVal_iff files hn payee t).mp h
+  exact ⟨f, fi, hg⟩
 
 theorem ptRestoreVal_complete (files : AList FileIdx) (hn : files.keys.Nodup) (payee : String)
     (p : String) (fi : FileIdx) (hg : files.get p = some fi) (hp : (fi.c.pts.get payee).isSome) :
@@ -221,6 +251,108 @@ theorem ptRestoreVal_complete (files : AList FileIdx) (hn : files.keys.Nodup) (p
     have : files.getD (minPath (a :: r)) default = e.2 := by
       unfold AList.getD; rw [← heq, hg2]; rfl
     rw [this]; exact he'.2
+
+/-- `restorePayeeTemplate`: the payee's entry becomes the minimal file's template if some
+    indexed file has one, and is left alone otherwise -/
+theorem get_ptRestore' (files : AList FileIdx) (m : AList String) (payee p : String) :
+    (ptRestore files m payee).get p =
+      if payee = p then (match ptRestoreVal files payee with
+        | some t => some t
+        | none => m.get p) else m.get p := by
+  unfold ptRestore ptRestoreVal
+  cases hh : (files.filter fun e => (e.2.c.pts.get payee).isSome).map (·.1) with
+  | nil => simp
+  | cons h t =>
+    simp only
+    cases hv : (files.getD (minPath (h :: t)) default).c.pts.get payee with
+    | none => simp
+    | some v =>
+      simp only
+      rw [get_set]
+
+theorem get_ptRestore (files : AList FileIdx) (m : AList String) (payee p : String) :
+    (ptRestore files (m.erase payee) payee).get p =
+      if payee = p then ptRestoreVal files payee else m.get p := by
+  rw [get_ptRestore', get_erase]
+  by_cases e : payee = p
+  · simp only [e, if_true]
+    cases ptRestoreVal files p <;> rfl
+  · simp [e]
+
+theorem nodup_ptRestore (files : AList FileIdx) (m : AList String) (payee : String)
+    (h : m.keys.Nodup) : (ptRestore files m payee).keys.Nodup := by
+  unfold ptRestore
+  simp only
+  split
+  · exact h
+  · split
+    · exact nodup_keys_set _ _ _ h
+    · exact h
+
+/-- the payee template loop of the pinned addFileIndex: overwrite -/
+theorem get_ptAdd (files : AList FileIdx) (m l : AList String) (hn : l.keys.Nodup) (p : String) :
+    (ptAdd false files m l).get p = match l.get p with
+      | some t => some t
+      | none => m.get p := by
+  induction l generalizing m with
+  | nil => simp [ptAdd]
+  | cons e r ih =>
+    obtain ⟨a, b⟩ := e
+    simp only [AList.keys, List.map_cons, List.nodup_cons] at hn
+    simp only [ptAdd, List.foldl_cons, Bool.false_eq_true, if_false] at *
+    rw [ih _ hn.2, get_cons]
+    by_cases h : a = p
+    · subst h
+      have : AList.get r a = none := (get_eq_none_iff r a).mpr hn.1
+      simp [this, get_set_self]
+    · simp only [h, if_false]
+      cases AList.get r p with
+      | some t => rfl
+      | none => simp [get_set_ne _ _ _ _ h]
+
+/-- the payee template loop of the repaired addFileIndex -/
+theorem get_ptAddFix (files : AList FileIdx) (m l : AList String) (p : String) :
+    (ptAdd true files m l).get p =
+      if p ∈ l.keys then (match ptRestoreVal files p with
+        | some t => some t
+        | none => m.get p) else m.get p := by
+  induction l generalizing m with
+  | nil => simp [ptAdd, AList.keys]
+  | cons e r ih =>
+    simp only [ptAdd, List.foldl_cons, if_true] at *
+    rw [ih]
+    by_cases hr : p ∈ AList.keys r
+    · have : p ∈ AList.keys (e :: r) := by
+        simp only [AList.keys, List.map_cons] at *; exact List.mem_cons_of_mem _ hr
+      simp only [hr, this, if_true]
+      cases hv : ptRestoreVal files p with
+      | some t => rfl
+      | none =>
+        simp only
+        rw [get_ptRestore']
+        by_cases he : e.1 = p
+        · simp [he, hv]
+        · simp [he]
+    · simp only [hr, if_false]
+      rw [get_ptRestore']
+      by_cases he : e.1 = p
+      · have : p ∈ AList.keys (e :: r) := by simp [AList.keys, he]
+        simp [this, he]
+      · have : p ∉ AList.keys (e :: r) := by
+          simp only [AList.keys, List.map_cons, List.mem_cons, not_or] at *
+          exact ⟨fun h => he h.symm, hr⟩
+        simp [this, he]
+
+theorem nodup_ptAdd (fixT : Bool) (files : AList FileIdx) (m l : AList String) (h : m.keys.Nodup) :
+    (ptAdd fixT files m l).keys.Nodup := by
+  induction l generalizing m with
+  | nil => exact h
+  | cons e r ih =>
+    simp only [ptAdd, List.foldl_cons] at *
+    apply ih
+    cases fixT with
+    | true => simp only [if_true]; exact nodup_ptRestore _ _ _ h
+    | false => simpa using nodup_keys_set _ _ _ h
 
 theorem get_ptRemove (fixT : Bool) (files : AList FileIdx) (m l : AList String) (p : String) :
     (ptRemove fixT files m l).get p =
@@ -247,16 +379,6 @@ theorem get_ptRemove (fixT : Bool) (files : AList FileIdx) (m l : AList String) 
         cases fixT with
         | true => simp only [if_true]; rw [get_ptRestore]; simp [he]
         | false => simp [get_erase, he]
-
-theorem nodup_ptRestore (files : AList FileIdx) (m : AList String) (payee : String)
-    (h : m.keys.Nodup) : (ptRestore files m payee).keys.Nodup := by
-  unfold ptRestore
-  simp only
-  split
-  · exact h
-  · split
-    · exact nodup_keys_set _ _ _ h
-    · exact h
 
 theorem nodup_ptRemove (fixT : Bool) (files : AList FileIdx) (m l : AList String)
     (h : m.keys.Nodup) : (ptRemove fixT files m l).keys.Nodup := by
@@ -295,6 +417,8 @@ structure TxOk (files : AList FileIdx) (m : AList (List Entry)) : Prop where
 structure PtOk (fixT : Bool) (files : AList FileIdx) (m : AList String) : Prop where
   sound : ∀ p t, m.get p = some t → ∃ f fi, files.get f = some fi ∧ fi.c.pts.get p = some t
   complete : fixT = true → ∀ f fi p, files.get f = some fi → (fi.c.pts.get p).isSome → (m.get p).isSome
+  /-- repaired code: the stored template is that of the smallest path having one -/
+  exact : fixT = true → ∀ p, m.get p = ptRestoreVal files p
   nodup : m.keys.Nodup
 
 /-- the derived fields are what `refreshDerived` computes from the counters -/
@@ -335,7 +459,8 @@ theorem idxInv_empty (fixT : Bool) : IdxInv fixT {} where
           fun t i h => by simp at h, by simp [AList.keys]⟩
   txs := ⟨fun key => by simp [AList.getD, entriesOfFiles], fun k l h => by simp at h,
           by simp [AList.keys]⟩
-  pts := ⟨fun p t h => by simp at h, fun _ f fi p h => by simp at h, by simp [AList.keys]⟩
+  pts := ⟨fun p t h => by simp at h, fun _ f fi p h => by simp at h,
+          fun _ p => by simp [ptRestoreVal], by simp [AList.keys]⟩
   derived := by
     simp [Derived, buildAccountIndex, accountIndexOf, sortedKeys, isort, AList.keys, buildTagValues]
 
@@ -369,10 +494,10 @@ theorem entriesOfFiles_append (a b : AList FileIdx) :
 
 theorem idxInv_add (fixT : Bool) (idx : WIndex) (path : String) (c : Contrib)
     (h : IdxInv fixT idx) (hnew : idx.files.get path = none) (hc : contribOk c = true) :
-    IdxInv fixT (addFileIndex idx path (mkFileIdx path c)) := by
+    IdxInv fixT (addFileIndex fixT idx path (mkFileIdx path c)) := by
   have hnk : path ∉ idx.files.keys := (get_eq_none_iff _ _).mp hnew
   obtain ⟨c1, c2, c3, c4, c5, c6⟩ := contribOk_parts c hc
-  have hfiles : (addFileIndex idx path (mkFileIdx path c)).files = idx.files.set path (mkFileIdx path c) := rfl
+  have hfiles : (addFileIndex fixT idx path (mkFileIdx path c)).files = idx.files.set path (mkFileIdx path c) := rfl
   refine
     { nodup := ?_, wf := ?_, ac := ?_, pc := ?_, cc := ?_, tc := ?_, dc := ?_, tvc := ?_,
       txs := ?_, pts := ?_, derived := derived_refresh _ }
@@ -400,36 +525,80 @@ theorem idxInv_add (fixT : Bool) (idx : WIndex) (path : String) (c : Contrib)
     rw [getD_txAdd, hfiles, set_of_not_mem _ _ _ hnk, entriesOfFiles_append, List.filter_append]
     apply List.Perm.append (h.txs.perm key)
     simp [entriesOfFiles]
-  · refine ⟨?_, ?_, nodup_ptAdd _ _ h.pts.nodup⟩
-    · intro p t hg
-      change (ptAdd idx.pts c.pts).get p = some t at hg
-      rw [get_ptAdd _ _ c6] at hg
+  · -- payee templates
+    have hnd' : (idx.files.set path (mkFileIdx path c)).keys.Nodup := nodup_keys_set _ _ _ h.nodup
+    have hget' : ∀ f, (idx.files.set path (mkFileIdx path c)).get f =
+        if path = f then some (mkFileIdx path c) else idx.files.get f := fun f => get_set _ _ _ f
+    have hkeep : ∀ f fi, idx.files.get f = some fi →
+        (idx.files.set path (mkFileIdx path c)).get f = some fi := by
+      intro f fi hf
+      rw [hget' f]
+      have : ¬ path = f := by intro e2; rw [← e2, hnew] at hf; simp at hf
+      simp [this, hf]
+    have hpts : (addFileIndex fixT idx path (mkFileIdx path c)).pts =
+        ptAdd fixT (idx.files.set path (mkFileIdx path c)) idx.pts c.pts := rfl
+    rw [hfiles, hpts]
+    -- files that have the payee, when the new file does not
+    have hcongr : ∀ p, p ∉ c.pts.keys → ∀ f fi,
+        (idx.files.get f = some fi ∧ (fi.c.pts.get p).isSome) ↔
+        ((idx.files.set path (mkFileIdx path c)).get f = some fi ∧ (fi.c.pts.get p).isSome) := by
+      intro p hp f fi
+      rw [hget' f]
+      constructor
+      · rintro ⟨h1, h2⟩
+        have : ¬ path = f := by intro e2; rw [← e2, hnew] at h1; simp at h1
+        simp [this, h1, h2]
+      · rintro ⟨h1, h2⟩
+        by_cases e : path = f
+        · simp only [e, if_true, Option.some.injEq] at h1
+          subst h1
+          exact absurd ((mem_keys_iff _ _).mpr h2) hp
+        · simp only [e, if_false] at h1; exact ⟨h1, h2⟩
+    cases fixT with
+    | false =>
+      refine ⟨?_, fun hf => by simp at hf, fun hf => by simp at hf, nodup_ptAdd _ _ _ _ h.pts.nodup⟩
+      intro p t hg
+      rw [get_ptAdd _ _ _ c6] at hg
       cases e : c.pts.get p with
       | some t' =>
         simp only [e, Option.some.injEq] at hg
         subst hg
-        exact ⟨path, mkFileIdx path c, by rw [hfiles, get_set_self], e⟩
+        exact ⟨path, mkFileIdx path c, get_set_self _ _ _, e⟩
       | none =>
         simp only [e] at hg
         obtain ⟨f, fi, hf, hfi⟩ := h.pts.sound p t hg
-        refine ⟨f, fi, ?_, hfi⟩
-        rw [hfiles, get_set_ne]; exact hf
-        intro e2; rw [← e2, hnew] at hf; simp at hf
-    · intro hfix f fi p hg hp
-      change ((ptAdd idx.pts c.pts).get p).isSome
-      rw [get_ptAdd _ _ c6]
-      rw [hfiles, get_set] at hg
-      by_cases e : path = f
-      · simp only [e, if_true, Option.some.injEq] at hg
-        subst hg
-        simp only [mkFileIdx] at hp
-        cases e2 : c.pts.get p with
-        | some t => simp
-        | none => simp [e2] at hp
-      · simp only [e, if_false] at hg
-        cases e2 : c.pts.get p with
-        | some t => simp
-        | none => exact h.pts.complete hfix f fi p hg hp
+        exact ⟨f, fi, hkeep f fi hf, hfi⟩
+    | true =>
+      have hexact : ∀ p, (ptAdd true (idx.files.set path (mkFileIdx path c)) idx.pts c.pts).get p =
+          ptRestoreVal (idx.files.set path (mkFileIdx path c)) p := by
+        intro p
+        rw [get_ptAddFix]
+        by_cases hk : p ∈ c.pts.keys
+        · simp only [hk, if_true]
+          have := ptRestoreVal_complete _ hnd' p path (mkFileIdx path c) (get_set_self _ _ _)
+            ((mem_keys_iff _ _).mp hk)
+          obtain ⟨t, ht⟩ := Option.isSome_iff_exists.mp this
+          rw [ht]
+        · simp only [hk, if_false]
+          rw [h.pts.exact rfl p]
+          cases e1 : ptRestoreVal idx.files p with
+          | some t =>
+            exact ((ptRestoreVal_iff _ hnd' p t).mpr
+              ((isMinTemplate_congr _ _ p (hcongr p hk) t).mp ((ptRestoreVal_iff _ h.nodup p t).mp e1))).symm
+          | none =>
+            cases e2 : ptRestoreVal (idx.files.set path (mkFileIdx path c)) p with
+            | none => rfl
+            | some t =>
+              have := (ptRestoreVal_iff _ h.nodup p t).mpr
+                ((isMinTemplate_congr _ _ p (hcongr p hk) t).mpr ((ptRestoreVal_iff _ hnd' p t).mp e2))
+              rw [e1] at this; simp at this
+      refine ⟨?_, ?_, fun _ => hexact, nodup_ptAdd _ _ _ _ h.pts.nodup⟩
+      · intro p t hg
+        rw [hexact p] at hg
+        exact ptRestoreVal_sound _ hnd' p t hg
+      · intro _ f fi p hg hp
+        rw [hexact p]
+        exact ptRestoreVal_complete _ hnd' p f fi hg hp
 
 /-! ### removing a file -/
 
@@ -532,7 +701,44 @@ theorem idxInv_remove (fixT : Bool) (idx : WIndex) (path : String) (fi : FileIdx
         exact hk (List.mem_map.mpr ⟨x, hx, hkey⟩)
       rw [e1] at hp2
       simpa using hp2
-  · refine ⟨?_, ?_, nodup_ptRemove _ _ _ _ h.pts.nodup⟩
+  · refine ⟨?_, ?_, ?_, nodup_ptRemove _ _ _ _ h.pts.nodup⟩
+    rotate_left 2
+    · -- repaired code: the stored template is the minimal file's
+      intro hfix p
+      change (ptRemove fixT (idx.files.erase path) idx.pts fi.c.pts).get p = _
+      rw [get_ptRemove, hfiles]
+      by_cases hk : p ∈ fi.c.pts.keys
+      · simp [hk, hfix]
+      · simp only [hk, if_false]
+        rw [h.pts.exact hfix p]
+        have hcongr : ∀ f fi', (idx.files.get f = some fi' ∧ (fi'.c.pts.get p).isSome) ↔
+            ((idx.files.erase path).get f = some fi' ∧ (fi'.c.pts.get p).isSome) := by
+          intro f fi'
+          rw [get_erase]
+          constructor
+          · rintro ⟨h1, h2⟩
+            by_cases e : path = f
+            · subst e
+              rw [hg] at h1
+              simp only [Option.some.injEq] at h1
+              subst h1
+              exact absurd ((mem_keys_iff _ _).mpr h2) hk
+            · simp [e, h1, h2]
+          · rintro ⟨h1, h2⟩
+            by_cases e : path = f
+            · simp [e] at h1
+            · simp only [e, if_false] at h1; exact ⟨h1, h2⟩
+        cases e1 : ptRestoreVal idx.files p with
+        | some t =>
+          exact ((ptRestoreVal_iff _ hnd' p t).mpr
+            ((isMinTemplate_congr _ _ p hcongr t).mp ((ptRestoreVal_iff _ h.nodup p t).mp e1))).symm
+        | none =>
+          cases e2 : ptRestoreVal (idx.files.erase path) p with
+          | none => rfl
+          | some t =>
+            have := (ptRestoreVal_iff _ h.nodup p t).mpr
+              ((isMinTemplate_congr _ _ p hcongr t).mpr ((ptRestoreVal_iff _ hnd' p t).mp e2))
+            rw [e1] at this; simp at this
     · intro p t hgp
       change (ptRemove fixT (idx.files.erase path) idx.pts fi.c.pts).get p = some t at hgp
       rw [get_ptRemove] at hgp
